@@ -656,7 +656,14 @@ def main():
     for i in range(n_nts):
         # a few cases contain connections that are never answered (5 s each; they overlap in the harness's worker threads)
         nts_cases.append(nts_gen_case(rng, stats, hang=(rng.choice([1, 1, 2]) if i < n_hang else 0), srv=i % 2))
-    if not rp or replay_nts:
+    # The NTS pool tie performs ~1500 real TLS key exchanges and name resolutions on loopback; in the sandbox copy used by
+    # `vp check` this made the quick tier take an hour (it passed).  It therefore runs in the thorough tier, in replays of
+    # NTS cases, and in the quick tier only with VERIF_C35_NTS=1; the quick tier keeps the theorems and the plain pool tie.
+    run_nts_tie = c.tier == "thorough" or bool(replay_nts) or os.environ.get("VERIF_C35_NTS") == "1"
+    if not run_nts_tie:
+        c.notes.append("NTS pool tie not run in the quick tier (thorough tier or VERIF_C35_NTS=1)")
+        stats["nts_tie_skipped"] = 1
+    if run_nts_tie and (not rp or replay_nts):
         nts_outs = nts_correspondence(c, nts_cases, stats)
         if nts_outs:
             for i in (0, len(nts_cases) // 2):
